@@ -35,7 +35,7 @@ def run(ctx):
     runs = ctx.pick(3, 5)
     cases = S.all_cases_small(dom, runs, 1, rnd)
     n_enum = len(cases)
-    nrand = ctx.pick(1500, 40000)
+    nrand = ctx.pick(1500, 25000)
     for i in range(nrand):
         cases.append(S.sample_case(dom, rnd, i, runs, nmanaged=rnd.choice([2, 3, 3])))
     binary = goharness.ext_test_build(ctx, "syncdir")
